@@ -44,7 +44,7 @@ type c04Case struct {
 	Idx      int       `json:"idx"`   // input to sign and to mutate around
 	HashType uint8     `json:"hash_type"`
 	Key      mon.Hex   `json:"key"`      // 32-byte private key
-	Via      string    `json:"via"`      // "FillInput" | "FillAllInputs"
+	Via      string    `json:"via"`      // "FillInput" | "FillAllInputs" | "UnlockingScript" (the unlocker called directly, its answer inserted by the caller)
 	MutSeed  uint64    `json:"mut_seed"` // PRNG stream for the mutation details (which bit, new values)
 }
 
@@ -438,6 +438,22 @@ func c04Judge(c *mon.Ctx, in *c04Case) {
 			return
 		}
 		if !c.Try("bt.(*Tx).FillAllInputs", func() { serr = tx.FillAllInputs(context.Background(), c04GetterFor(priv)) }) {
+			return
+		}
+	case "UnlockingScript":
+		// the unlocker asked directly, its answer put in place by the caller; for ALL|FORKID the
+		// hash type is left at the zero value, which the parameter documents as that default
+		flag := sighash.Flag(t)
+		if t == 0x41 {
+			flag = 0
+		}
+		if !c.Try("unlocker.(*Simple).UnlockingScript", func() {
+			var us *bscript.Script
+			us, serr = (&unlocker.Simple{PrivateKey: priv}).UnlockingScript(context.Background(), tx, bt.UnlockerParams{InputIdx: uint32(i), SigHashFlags: flag})
+			if serr == nil {
+				serr = tx.InsertInputUnlockingScript(uint32(i), us)
+			}
+		}) {
 			return
 		}
 	default:
@@ -944,7 +960,7 @@ func init() {
 			if r.Chance(1, 6) {
 				judge(c, c04MakeCase(r, ni, no, r.Intn(ni), 0x41, "FillAllInputs", r.Bool()))
 			} else {
-				judge(c, c04MakeCase(r, ni, no, r.Intn(ni), prng.Pick(r, c04Types), "FillInput", r.Bool()))
+				judge(c, c04MakeCase(r, ni, no, r.Intn(ni), prng.Pick(r, c04Types), prng.Pick(r, []string{"FillInput", "FillInput", "UnlockingScript"}), r.Bool()))
 			}
 		}
 	}
